@@ -233,8 +233,12 @@ theorem inv_cleanup {s : TD} (hI : Inv s) (n : Nat) : Inv (cleanup s n) := by
 
 theorem inv_terminate {s : TD} (hI : Inv s) (n : Nat) : Inv (terminate s n) := by
   unfold terminate
-  apply inv_cleanup
-  exact ⟨hI.fresh, hI.done, hI.unused, hI.tbl, hI.heldIp⟩
+  split
+  · split
+    · exact hI
+    · apply inv_cleanup
+      exact ⟨hI.fresh, hI.done, hI.unused, hI.tbl, hI.heldIp⟩
+  · exact hI
 
 theorem inv_foldl_terminate (l : List (Nat × Nat)) : ∀ {s : TD}, Inv s →
     Inv (l.foldl (fun st p => terminate st p.2) s) := by
@@ -364,7 +368,12 @@ theorem terminated_holds_nothing (radius : Bool) (ops : List Op) (n : Nat) (o : 
             · rfl
             · rw [removeSession_radius]
         have hte : ∀ (t : TD) (k : Nat), (terminate t k).radius = t.radius := by
-          intro t k; unfold terminate; rw [hcl]
+          intro t k; unfold terminate
+          split
+          · split
+            · rfl
+            · rw [hcl]
+          · rfl
         have hfo : ∀ (l : List (Nat × Nat)) (t : TD),
             (l.foldl (fun st p => terminate st p.2) t).radius = t.radius := by
           intro l; induction l with
@@ -405,10 +414,12 @@ theorem terminated_holds_nothing (radius : Bool) (ops : List Op) (n : Nat) (o : 
     object it is marked torn down (so `terminated_holds_nothing` applies to it). -/
 theorem terminate_tears_down (s : TD) (n : Nat) (o : Obj) (ho : AMap.lookup s.objs n = some o) :
     ∃ o', AMap.lookup (step s (.term n)).objs n = some o' ∧ o'.tornDown = true := by
-  simp only [step, ho, Option.isSome_some, if_true, terminate, cleanup]
-  split
-  · rename_i ht; exact ⟨o, ho, ht⟩
-  · rw [removeSession_objs]; exact ⟨{ o with tornDown := true }, by simp, rfl⟩
+  simp only [step, ho, Option.isSome_some, if_true, terminate]
+  by_cases ht : o.tornDown = true
+  · simp only [ht, if_true]; exact ⟨o, ho, ht⟩
+  · have ht' : o.tornDown = false := by simpa using ht
+    simp only [ht', Bool.false_eq_true, if_false, cleanup, ho]
+    rw [removeSession_objs]; exact ⟨{ o with tornDown := true }, by simp, rfl⟩
 
 /-- a client PADT from the session's own MAC tears it down; from any other MAC it changes nothing -/
 theorem padt_owner_only (s : TD) (n m : Nat) (o : Obj) (ho : AMap.lookup s.objs n = some o) :
@@ -443,8 +454,27 @@ theorem cleanup_idempotent (s : TD) (n : Nat) : cleanup (cleanup s n) n = cleanu
         simp [cleanup, ho, ht, removeSession_objs]
       exact cleanup_of_tornDown _ n _ h1 rfl
 
+/-- **Ending a session twice through the API has no further effect**: a second TerminateSession on
+    the same session object leaves the WHOLE state unchanged — no further PADT, Accounting-Stop, map
+    removal, pool or table change (after the fix f4189e1). -/
+theorem terminate_idempotent (s : TD) (n : Nat) : terminate (terminate s n) n = terminate s n := by
+  cases ho : AMap.lookup s.objs n with
+  | none =>
+    have : terminate s n = s := by simp [terminate, ho]
+    rw [this, this]
+  | some o =>
+    by_cases ht : o.tornDown = true
+    · have : terminate s n = s := by simp [terminate, ho, ht]
+      rw [this, this]
+    · have ht' : o.tornDown = false := by simpa using ht
+      have h1 : AMap.lookup (terminate s n).objs n = some { o with tornDown := true } := by
+        simp [terminate, ho, ht', cleanup, removeSession_objs]
+      generalize terminate s n = t at h1 ⊢
+      simp [terminate, h1]
+
 /-! non-vacuity: a concrete history with a double termination of an authenticated, addressed session -/
 example : count (run (init true) [.mk 1 1 true true, .term 1, .term 1, .termAll]).stops 1 = 1 ∧
+    count (run (init true) [.mk 1 1 true true, .term 1, .term 1, .termAll]).padt 1 = 1 ∧
     (run (init true) [.mk 1 1 true true, .term 1, .term 1]).held = [] := by decide
 
 end Bng.Spec.C16Teardown
